@@ -195,7 +195,9 @@ class Check(object):
             len(self.nontrivial), wall))
         for k, v in sorted(self.counters.items()):
             print('  {:<48} {}'.format(k, v))
-        for key in unlisted:
+        if len(unlisted) > 12:
+            print('  ... {} distinct unlisted violation keys; showing the first 12'.format(len(unlisted)))
+        for key in unlisted[:12]:
             path = self.write_replay(key, self.violations[key][0])
             print('  witness[{}]: {}'.format(key, json.dumps(
                 self.violations[key][0]['detail'], default=repr)[:600]))
